@@ -177,6 +177,10 @@ func c16RunReal(t rt.TB, c c16Real) {
 		// the distances between consecutive "activity ends" and "next activity starts";
 		// here: emitReturn_{k-1} -> emitStart_k, subscription -> first, last -> completion.
 		for _, s := range got {
+			if s.k == 'E' && cat.ErrKey(s.err) != "timeout" {
+				fail("unexpected-error", fmt.Sprintf("%s: ended with %v", desc, s.err))
+				return
+			}
 			if s.k == 'E' && cat.ErrKey(s.err) == "timeout" {
 				maxQuiet := time.Duration(0)
 				prevEnd := subStart
